@@ -15,7 +15,11 @@ operation `tick`, which runs the code's `wait(ALL_COMPLETED)` + `maybe_clean` be
 no future of the dataset behind whatever stage the pool jobs were at (`Aux.handleAll_mstar`).
 `c07_purge_waits_every_job` (+ `_tick`) says what the wait is for: EVERY future pending when the purge branch (the
 iteration) begins — any number, any dataset, any stage, any pool order — has reported the end of its job in the trace
-BEFORE the `purged` event (`Lemmas/TransferWait.lean`).
+BEFORE the `purged` event (`Lemmas/TransferWait.lean`).  All of this rests on the purge arm's `wait` being the
+blocking one: `handleAll` calls `purgeWait`, which is `waitAll` only because the constants the translator reads from
+data_server.py say ALL_COMPLETED / all futures / no timeout (`c07_wait_calls_as_modelled`, by `decide`);
+`c07_purge_arm_waits_every_job` has that as an explicit hypothesis and `c07_purge_arm_waits_full_fails` shows it
+cannot be dropped.
 -/
 import EkwVerif.Lemmas.Transfer
 import EkwVerif.Lemmas.TransferRetry
@@ -148,6 +152,23 @@ theorem c07_no_resurrection (w0 : World) (hf : Fresh w0) (ops later : List Op) (
   have hi2 := inv_mstar (run_mstar (run w0 ops) later) hi
   exact ⟨hs.2.1, hs.2.2.2.2, hi2.inv_nostore h ds hs.1, hs.1⟩
 
+/-- **a payload arriving after the purge is DISCARDED** (the clause of the property text, as the event the tie
+compares: `ignored`).  After ANY history in which `h` handled a purge of `ds`, and ANY continuation `later` — however
+many other purges, transfers, retries, faults it contains: `invalid` has no horizon — when the message loop of the live
+data server of `h` stands at a payload of `ds`, all it does is drop it from the inbox and trace `ignored`: no store job
+is submitted (`futs` unchanged), nothing is allocated, stored or announced. -/
+theorem c07_late_payload_discarded (w0 : World) (hf : Fresh w0) (ops later : List Op) (h ds k : Nat) (p : Payload)
+    (rest : List Msg) (hp : Event.purged h ds k ∈ (run w0 ops).log) (hpd : p.ds = ds)
+    (hc : ((run w0 (ops ++ later)).hosts h).crashed = false)
+    (hi : ((run w0 (ops ++ later)).hosts h).inbox = .pay p :: rest) :
+    handleHead h (run w0 (ops ++ later)) =
+      ((run w0 (ops ++ later)).setHost h { (run w0 (ops ++ later)).hosts h with inbox := rest }).emit
+        (.ignored h ds p.confirmIdx) := by
+  have hinv := (c07_no_resurrection w0 hf ops later h ds k hp).2.2.2
+  generalize run w0 (ops ++ later) = w at hc hi hinv
+  subst hpd
+  simp [handleHead, handleMsg, hc, hi, World.setHost, hinv]
+
 /-- **the race: the purge overtakes the payload.** If the purge of `ds` was handled at `h` when `h` had never
 held or stored `ds` (the payload of the transfer was still on its way), then `h` never stores, announces or
 holds `ds`: the late payload is discarded. -/
@@ -195,6 +216,66 @@ theorem c07_purge_waits_every_job (w : World) (h ds : Nat) (rest : List Msg) (fu
       ∀ h' d k, Event.purged h' d k ∉ pre := by
   obtain ⟨pre, post, hl, hall, hnp⟩ := handleAll_purge_log w h ds rest fuel sched hc hi
   exact ⟨pre, post, hl, fun f hm hr => (jobEnded_iff h f.key pre).mpr (hall f hm hr), hnp⟩
+
+/-- the purge arm of the message loop — `wait` · `maybe_clean` · the body of the arm — with the behaviour of the
+`wait` call as parameters (`blocks`: return_when = ALL_COMPLETED and no timeout; `timeoutMs`) -/
+def purgeArm (blocks : Bool) (timeoutMs : Option Nat) (h : Nat) (sched : List Nat) (w : World) : World :=
+  let r1 := purgeWaitWith blocks timeoutMs h (w.hosts h).futs.length sched w
+  let r2 := mclean h r1.2 r1.1
+  handleHead h r2.1
+
+namespace Aux
+/-- the model's message loop standing at a purge IS this arm with the two constants read from the source -/
+theorem handleAll_one_eq (w : World) (h ds : Nat) (rest : List Msg) (sched : List Nat)
+    (hc : (w.hosts h).crashed = false) (hi : (w.hosts h).inbox = .purge ds :: rest) :
+    (handleAll h 1 sched w).1 = purgeArm purgeWaitBlocks Gen.DataServerWait.purgeWaitTimeoutMs h sched w := by
+  simp [handleAll, purgeArm, purgeWait, hc, hi]
+end Aux
+
+/-- **the `wait` calls are the ones the model has** (the side condition of the table `Gen/DataServerWait.lean`, which
+the translator regenerates from data_server.py on every run): the purge arm calls
+`wait(…, return_when=ALL_COMPLETED)` WITHOUT `timeout` before the shm purge, `maybe_clean` calls
+`wait(…, return_when=FIRST_COMPLETED)` without `timeout`.  `decide` evaluates the generated constants: a `timeout=`
+(or another `return_when`, or no call before the shm purge) in the source makes this theorem — and with it
+`purgeWait_eq`, on which every purge-waits theorem rests — fail.  (Which futures the call is given is observed by the
+tie at run time, not decided here.) -/
+theorem c07_wait_calls_as_modelled : purgeWaitBlocks = true ∧ cleanWaitAsModelled = true := by decide
+
+/-- **the purge waits for every job — IF the wait blocks** (the hypothesis 'ALL_COMPLETED over all futures, no
+timeout' explicit: `hb`; that the source satisfies it is `c07_wait_calls_as_modelled`).  Same conclusion as
+`c07_purge_waits_every_job`, for the arm with ANY `timeoutMs` field and `blocks = true`. -/
+theorem c07_purge_arm_waits_every_job (blocks : Bool) (timeoutMs : Option Nat) (hb : blocks = true)
+    (w : World) (h ds : Nat) (rest : List Msg) (sched : List Nat)
+    (hc : (w.hosts h).crashed = false) (hi : (w.hosts h).inbox = .purge ds :: rest) :
+    ∃ pre post, (purgeArm blocks timeoutMs h sched w).log = post ++ Event.purged h ds 0 :: (pre ++ w.log) ∧
+      (∀ f ∈ (w.hosts h).futs, f.result = none → jobEnded h f.key pre) ∧
+      ∀ h' d k, Event.purged h' d k ∉ pre := by
+  subst hb
+  have he : purgeArm true timeoutMs h sched w = (handleAll h (0 + 1) sched w).1 := by
+    simp [handleAll, purgeArm, purgeWait, purgeWaitWith, purgeWaitBlocks_true, hc, hi]
+  rw [he]
+  exact c07_purge_waits_every_job w h ds rest 0 sched hc hi
+
+/-- **… and NOT otherwise.** With a `wait` that may return early (a `timeout`: jobs that take longer are returned as
+`not_done`; FIRST_COMPLETED; a subset of the futures) the arm issues the shm purge with jobs of that dataset still in
+flight: on the three-futures state below (two send jobs of dataset 0, a store job of dataset 5; the `maybe_clean`
+that follows the wait brings the futures below `cap` = 2 by finishing the store job and the first send job) the trace
+has `purged 1 0 1` — the shm purge is issued while the send job that has its READ BUFFER OPEN is still in flight.  So the hypothesis `blocks = true` of `c07_purge_arm_waits_every_job` cannot be dropped.  (On the
+real code: the check's `fake_wait` honours `timeout`; a source with `timeout=` in that call is reported through the
+oracle kind `purge-no-wait` with a failing input, and the corpus case `C07_timed_wait_purges_early.json` replays this
+witness on the real loop with the timeout forced from outside.) -/
+theorem c07_purge_arm_waits_full_fails :
+    ¬ ∀ (timeoutMs : Option Nat) (w : World) (h ds : Nat) (rest : List Msg) (sched : List Nat),
+        (w.hosts h).crashed = false → (w.hosts h).inbox = .purge ds :: rest →
+        ∀ k, Event.purged h ds k ∈ (purgeArm false timeoutMs h sched w).log → k = 0 := by
+  intro hall
+  have := hall (some 2000)
+    { hosts := fun h => if h = 1 then
+        { store := [(0, "aa", "df0")], inbox := [.purge 0],
+          futs := [⟨.cmd ⟨1, 2, 2, 0, 0⟩, 0, none⟩, ⟨.cmd ⟨1, 0, 0, 0, 1⟩, 1, none⟩, ⟨.pay ⟨3, 7, 5, "df5", "ee"⟩, 0, none⟩] }
+        else {} }
+    1 0 [] [2] (by decide) (by decide) 1 (by decide)
+  omega
 
 /-- **… seen from one iteration of `recv_loop`.** In ANY state in which the data server of `h` is alive with nothing
 unread (whatever its pool is doing): the iteration that receives a purge of `ds` — initial `maybe_clean`,
@@ -337,6 +418,37 @@ theorem c07_exec_purge_filter (w0 : World) (hf : Fresh w0) (ops : List Op) (h ds
   rw [run_append]
   generalize run w0 ops = w at hpub hmb
   simp [run, step, etick, feedE, injectE, execAll, execHandle, World.setHost, World.emit, hmb, hpub]
+
+/-- **the executor's purge filter, the other direction.** In ANY state: a purge from the controller for a dataset that
+is NOT in `Executor.datasets` (executor's socket otherwise empty) is dropped by the executor's next iteration — the
+only trace is `purgeDropped`; nothing reaches the data server's socket, `Executor.datasets` and the store are
+unchanged.  Together with `c07_exec_purge_filter` (b): under `mbox = []` the purge is forwarded IF AND ONLY IF the
+dataset is in `Executor.datasets`.  (The tie compares the `purgeDropped` / `purgeFwd` events op by op.) -/
+theorem c07_exec_purge_dropped (w : World) (h ds : Nat)
+    (hn : ds ∉ (w.hosts h).published) (hmb : (w.hosts h).mbox = []) :
+    (step w (.etick h [ds])).log = Event.purgeDropped h ds :: w.log ∧
+    ((step w (.etick h [ds])).hosts h).sock = (w.hosts h).sock ∧
+    ((step w (.etick h [ds])).hosts h).published = (w.hosts h).published ∧
+    ((step w (.etick h [ds])).hosts h).store = (w.hosts h).store ∧
+    Event.purgeFwd h ds ∉ (step w (.etick h [ds])).log.take 1 := by
+  simp [step, etick, feedE, injectE, execAll, execHandle, World.setHost, World.emit, hmb, hn]
+
+/-- **a purge right behind the announcement.** In ANY state: the data server's `DatasetPublished(ds)` is still queued on
+the executor's socket (the executor has not seen it yet — whether or not `ds` is in `Executor.datasets`) when the
+controller's purge of `ds` arrives behind it.  The executor's next iteration handles both in order: it tells the
+controller (`ctrlPub`), then FORWARDS the purge — it is not dropped as "unexpected" — and `ds` is not in
+`Executor.datasets` afterwards.  (The case the hypotheses `mbox = []` of `c07_exec_purge_filter` (b) and
+`c07_purge_end_to_end_partial` leave out.) -/
+theorem c07_exec_purge_behind_announcement (w : World) (h ds idx : Nat) (hmb : (w.hosts h).mbox = [.pub ds idx]) :
+    (step w (.etick h [ds])).log = Event.purgeFwd h ds :: Event.ctrlPub h ds idx :: w.log ∧
+    ds ∉ ((step w (.etick h [ds])).hosts h).published ∧
+    ((step w (.etick h [ds])).hosts h).sock = (w.hosts h).sock ++ [Frame.plain h (Msg.purge ds)] ∧
+    ((step w (.etick h [ds])).hosts h).mbox = [] := by
+  have hin : ds ∈ insertS (w.hosts h).published ds := by
+    unfold insertS; split
+    · assumption
+    · simp
+  simp [step, etick, feedE, injectE, execAll, execHandle, World.setHost, World.emit, hmb, hin]
 
 /-- **purge, end to end.** The controller's purge of `ds` arrives at the executor of `h`, which has `ds` in
 `Executor.datasets` (it saw it published: what the controller's purge presupposes, C04), its socket otherwise
@@ -573,6 +685,18 @@ example : (handleAll 1 1 [2, 1] exWP).1.log =
     [.purged 1 0 0, .sent 1 exT "aa" "df0", .sent 1 exF "aa" "df0", .announced 1 5 7, .stored 1 5 7 "ee" "df5"] := by decide
 example : (handleAll 1 1 [] exWP).1.log =
     [.purged 1 0 0, .announced 1 5 7, .stored 1 5 7 "ee" "df5", .sent 1 exF "aa" "df0", .sent 1 exT "aa" "df0"] := by decide
+/-- `c07_purge_arm_waits_every_job` on the same state (any `timeoutMs` field, `blocks = true`), and what the arm does
+there when the wait does NOT block (timeout 2 s, all three jobs slower): `maybe_clean` finishes two of them, the shm
+purge is issued with one future of dataset 0 left -/
+example : ∃ pre post, (purgeArm true (some 2000) 1 [2, 1] exWP).log = post ++ Event.purged 1 0 0 :: (pre ++ exWP.log) ∧
+    jobEnded 1 (.cmd exT) pre ∧ jobEnded 1 (.cmd exF) pre := by
+  obtain ⟨pre, post, hl, hall, _⟩ := c07_purge_arm_waits_every_job true (some 2000) rfl exWP 1 0 [] [2, 1] (by decide) (by decide)
+  exact ⟨pre, post, hl, hall ⟨.cmd exT, 0, none⟩ (by decide) rfl, hall ⟨.cmd exF, 1, none⟩ (by decide) rfl⟩
+example : (purgeArm false (some 2000) 1 [2] exWP).log =
+    [.purged 1 0 1, .sent 1 exT "aa" "df0", .announced 1 5 7, .stored 1 5 7 "ee" "df5"] ∧
+    (purgeArm false (some 2000) 1 [2] exWP).now = exWP.now + 2000 := by decide
+/-- `c07_exec_purge_dropped`: host 2 has never seen dataset 0 published -/
+example : (step exW0 (.etick 2 [0])).log = [.purgeDropped 2 0] ∧ ((step exW0 (.etick 2 [0])).hosts 2).sock = [] := by decide
 /-- `jobEnded` is not trivially true: nothing has ended in an empty trace, and the report of one job is not the
 report of another -/
 example : ¬ jobEnded 1 (.cmd exT) [] ∧ ¬ jobEnded 1 (.cmd exT) [.sent 1 exF "aa" "df0"] ∧
